@@ -211,6 +211,10 @@ class Parameter(Accessible):
                 else:
                     raise ProgrammingError(
                         'datatype MUST be derived from class DataType!')
+            if any(k not in self.propertyDict for k in kwds):
+                # datatype properties are given in addition: apply them to a copy, not to
+                # the object of the caller (which might be shared, e.g. a constant like UInt8)
+                datatype = datatype.copy()
             self.datatype = datatype
             if 'default' in kwds:
                 self.default = datatype(kwds['default'])
